@@ -113,7 +113,15 @@ func runMsgflow(w *World, rs *RunSpec) {
 	}
 	cs := w.StartCallers(plans)
 	cs.Wait()
+	w.Drain()
 	w.Shutdown()
+}
+
+// Drain waits until nothing is runnable and no timer will change that, and marks
+// the history (the wire monitor and the leak accounting use the mark).
+func (w *World) Drain() {
+	simrt.AwaitStall()
+	simrt.Emit(simrt.Event{Kind: EvCheckpoint, S: "drained"})
 }
 
 func outermost(t *Tunnel) *Tunnel {
